@@ -360,8 +360,18 @@ class SimRunFormula(Contract):
         return res
 
 
+def _has_loop_statement(f):
+    import ast as _ast
+    return any(isinstance(n, (_ast.For, _ast.While)) for n in _ast.walk(f.node))
+
+
 class SimCheckForCycle(Contract):
     name = f"{SIM}._check_for_cycle"
+
+    def applicable(self, I, case, f):
+        if case[0] == "any-stack" and _has_loop_statement(f):
+            return "the any-length-stack case is written for frames selected by a comprehension; this code selects them with a loop statement, for which the contract has no invariant"
+        return None
     prop = ("C01", "C02", "C18")
     top_level = True
     # frames below the top one: each is (same variable?, same period?); the top frame is the request itself
